@@ -178,8 +178,10 @@ CHECKS = {
        "func/chan/interface/error fields, underscore/embedded fields; random shapes over every field kind x visibility x tag with "
        "shadow-prone field names) are run through gombok built from the working tree twice (GOMAXPROCS 1 and 16, outputs must be "
        "byte-identical), then go vet + go build, then a generic reflection driver inside the generated package that uses the "
-       "private fields as oracle on 25 random values per struct. TLC (TraceGombok) accepts only events with the required API "
-       "present and every law true; a failing package is bisected to the struct that breaks it.",
+       "private fields as oracle on 25 random values per struct. Every API call of the first four values is also logged as an Op "
+       "event (digests of all fields before, call, digests after) and TLC evaluates Gombok!Expected - the same operators the bounded "
+       "model checks - to decide what the value after the call must be. TLC (TraceGombok) accepts only events with the required API "
+       "present, every law true and every Op as specified; a failing package is bisected to the struct that breaks it.",
   note="Trusted: TLC, go/types + the Go compiler as the judge of 'compiles', the reflection driver (reads fields via unsafe). "
        "Field names Builder/Mutable/String-colliding with the generated API are outside the grammar; @fp.Getter/@fp.With/@fp.Builder "
        "partial annotations and user-pre-defined methods are not generated. Struct shapes are sampled (seeded), not enumerated.",
@@ -208,8 +210,10 @@ CHECKS = {
        "with overriding instances in the working package / the type's package / both / neither) go through gombok from the working "
        "tree (twice, byte-identical), go vet + go build with a registry calling every instance by its documented name and arity, and "
        "a driver comparing each instance with a field-by-field reference written by the harness from the naming rule on 150 value "
-       "triples; overriding instances are semantically distinct and count uses. TLC (TraceDerive) accepts only agreeing laws and "
-       "counters consistent with Derive!Resolve.",
+       "triples; overriding instances are semantically distinct and count uses. For 40 comparisons per instance the verdicts of the "
+       "field instances are logged and TLC applies Derive!CEqV / CLessV - the composition the bounded model checks - to decide what "
+       "the derived instance must answer. TLC (TraceDerive) accepts only agreeing laws, specified compositions and counters "
+       "consistent with Derive!Resolve.",
   note="Trusted: TLC, the Go compiler as judge of 'compiles', the base instances of the typeclass packages (C09-C11, C18 check those). "
        "Show instances, ImportGiven and js/read example typeclasses are not covered; recursion through bare slices ([]T of the type "
        "itself) is outside the stated grammar (gombok emits an eagerly recursive instance for it). Shapes are sampled (seeded).",
